@@ -1237,6 +1237,111 @@ def _oracle_bsv_history(ctx, n, fails):
     return cnt
 
 
+# ------------------------------------------------------------------------------------------ row layouts
+_LAYOUTS = ('pose_major', 'sensor_major', 'shuffled', 'repeated', 'single', 'one_per_pose_pair')
+
+
+def _gen_row_layout(ctx):
+    """a scene (base-station poses, Crazyflie poses, the 4 deck sensors) and a list of rows (bs index, cf index, sensor
+    index) in one of the layouts the batched functions must accept: 'one entry per output angle pair'"""
+    rvs = rotvecs(ctx, 6)
+    nb, nc = ctx.rng.choice((1, 2, 3)), ctx.rng.choice((1, 2, 3, 4))
+    bss = [list(rvs[ctx.rng.randrange(len(rvs))][1]) + [ctx.rng.uniform(-4, -1.5), ctx.rng.uniform(-2, 2), ctx.rng.uniform(0.5, 3)]
+           for _ in range(nb)]
+    cfs = [list(rvs[ctx.rng.randrange(len(rvs))][1]) + [ctx.rng.uniform(-1, 1), ctx.rng.uniform(-1, 1), ctx.rng.uniform(0, 1)]
+           for _ in range(nc)]
+    lay = ctx.rng.choice(_LAYOUTS)
+    full = [(b, c, k) for c in range(nc) for b in range(nb) for k in range(4)]          # what solve() builds
+    if lay == 'pose_major':
+        rows = full
+    elif lay == 'sensor_major':
+        rows = [(b, c, k) for k in range(4) for c in range(nc) for b in range(nb)]
+    elif lay == 'shuffled':
+        rows = list(full)
+        ctx.rng.shuffle(rows)
+        rows = rows[:ctx.rng.randrange(1, len(rows) + 1)]
+    elif lay == 'repeated':
+        rows = [full[ctx.rng.randrange(len(full))] for _ in range(ctx.rng.randrange(2, 12))]
+        rows = rows + rows[:3]
+    elif lay == 'single':
+        rows = [full[ctx.rng.randrange(len(full))]]
+    else:
+        rows = [(b, c, ctx.rng.randrange(4)) for c in range(nc) for b in range(nb)]
+    return {'fn': 'row_layout', 'layout': lay, 'bs': bss, 'cf': cfs, 'rows': [list(r) for r in rows],
+            'n_sensors': ctx.rng.choice((None, 1, 4)), 'index_kind': ctx.rng.choice(('int64', 'int32', 'list', 'intp'))}
+
+
+def _run_row_layout(case):
+    """row i of _calc_angle_pairs / _poses_to_angle_pairs must be the types-path projection of row i's OWN
+    (base-station pose, Crazyflie pose, sensor), whatever the order, grouping or repetition of the rows and whatever
+    defs.n_sensors says.  Returns (class, expected, observed, detail) or None."""
+    import numpy as np
+    from cflib.localization.lighthouse_geometry_solver import LighthouseGeometrySolver as GS
+    from cflib.localization.lighthouse_geometry_solver import LighthouseGeometrySolution
+    from cflib.localization.lighthouse_types import LhDeck4SensorPositions
+    S = np.array(LhDeck4SensorPositions.positions, dtype=float)
+    bss, cfs = np.array(case['bs'], dtype=float), np.array(case['cf'], dtype=float)
+    rows = case['rows']
+    defs = LighthouseGeometrySolution()
+    defs.n_sensors = case['n_sensors']
+    defs.n_bss, defs.n_cfs, defs.n_cfs_in_params = len(bss), len(cfs), max(0, len(cfs) - 1)
+    ib, ic, ik = [r[0] for r in rows], [r[1] for r in rows], [r[2] for r in rows]
+    kind = case.get('index_kind', 'int64')
+    if kind != 'list':
+        dt = {'int64': np.int64, 'int32': np.int32, 'intp': np.intp}[kind]
+        ib, ic, ik = np.array(ib, dtype=dt), np.array(ic, dtype=dt), np.array(ik, dtype=dt)
+    exp, well = [], []
+    for b, c, k in rows:
+        e, p = _types_angle_pair(bss[b], cfs[c], S[k])
+        exp.append(e)
+        well.append(math.hypot(p[0], p[1]) >= 1e-4 and math.hypot(p[0], p[2]) >= 1e-4)
+    with warnings.catch_warnings():
+        warnings.simplefilter('ignore')
+        got = {'_poses_to_angle_pairs': GS._poses_to_angle_pairs(bss, cfs, S, ib, ic, ik, defs),
+               '_calc_angle_pairs': GS._calc_angle_pairs(bss[[r[0] for r in rows]], cfs[[r[1] for r in rows]],
+                                                         S[[r[2] for r in rows]], defs)}
+    for nm, g in got.items():
+        if np.shape(g) != (len(rows), 2):
+            return ('projection_rows_shape', [len(rows), 2], list(np.shape(g)), '%s: one output row per input row' % nm)
+        for i in range(len(rows)):
+            if not well[i]:
+                continue
+            for a, e in zip(g[i], exp[i]):
+                dd = abs(float(a) - e)
+                if not min(dd, abs(dd - 2 * math.pi)) <= 1e-9:
+                    cls = 'projection_paths_disagree' if case['layout'] == 'pose_major' and case['n_sensors'] in (None, 4) \
+                        else 'projection_rows_not_independent'
+                    return (cls, exp[i], [float(x) for x in g[i]],
+                            '%s, layout %s, defs.n_sensors=%r: output row %d (bs %d, cf %d, sensor %d) must be the Pose/from_cart '
+                            'projection of its own poses' % (nm, case['layout'], case['n_sensors'], i, *rows[i]))
+    return None
+
+
+def _oracle_row_layouts(ctx, n, fails):
+    cnt = 0
+    for _ in range(n):
+        case = _gen_row_layout(ctx)
+        cnt += 2 * len(case['rows'])
+        try:
+            f = _run_row_layout(case)
+            if f:
+                rows, i = list(case['rows']), 0          # shrink: drop rows while the same class still fails
+                while i < len(rows) and len(rows) > 1:
+                    g = None
+                    try:
+                        g = _run_row_layout(dict(case, rows=rows[:i] + rows[i + 1:]))
+                    except Exception:  # noqa
+                        pass
+                    if g and g[0] == f[0]:
+                        rows, f = rows[:i] + rows[i + 1:], g
+                    else:
+                        i += 1
+                _fail(fails, f[0], dict(case, rows=rows), f[1], f[2], f[3])
+        except Exception as e:  # noqa
+            _fail(fails, 'paths_raises', case, 'no exception', repr(e), 'solver projection raised for this row layout')
+    return cnt
+
+
 def _corpus(ctx):
     import glob
     import json
@@ -1277,6 +1382,7 @@ def oracle(ctx, deep=False):
                           _tvec(ctx, 5.0), fails)
     n += _oracle_paths(_path_rows(ctx, sz(4000, 15000, 60000)), fails)
     n += _oracle_solver_reuse(ctx, sz(300, 1000, 3000), fails)
+    n += _oracle_row_layouts(ctx, sz(400, 1200, 4000), fails)
     n += _oracle_pose_misc(ctx, sz(300, 1000, 3000), fails)
     n += _oracle_history(ctx, sz(600, 2000, 6000), fails)
     n += _oracle_scaler(ctx, sz(100, 300, 1000), fails)
@@ -1318,6 +1424,10 @@ def _replay_case(c):
         from cflib.localization.lighthouse_types import LhDeck4SensorPositions, Pose
         S = np.array(LhDeck4SensorPositions.positions, dtype=float)
         for f in _solver_reuse_case(c, np, GS, LighthouseGeometrySolution(), S, S.shape[0], Pose):
+            _fail(fails, f[0], c, f[1], f[2], f[3])
+    elif fn == 'row_layout':
+        f = _run_row_layout(c)
+        if f:
             _fail(fails, f[0], c, f[1], f[2], f[3])
     elif fn == 'pose_history':
         f = _run_history(c)
